@@ -1,6 +1,7 @@
 #!/bin/bash
 # tools/seed_sweep.sh <tier> <seed…> : every check (or $CHECKS) on the unchanged tree with several seeds; any non-zero exit is a false alarm
 TIER=$1; shift
+export VERIF_EVIDENCE_DIR=${VERIF_EVIDENCE_DIR:-/dev/shm/sweep_ev}   # sweeps never overwrite the committed evidence
 for s in "$@"; do for c in ${CHECKS:-C01 C02 C03 C04 C05 C06 C07 C08 C09 C10 C11 C12 C13 C14 C15 C16 C17 C18 C19 C20}; do
   rm -f /verif/lean/.lake/anchors_$c.json
   out=$(VERIF_SEED=$s /verif/check $c --tier $TIER 2>&1 | grep -v "^\[E::\|^\[W::" | tail -3); rc=$?
